@@ -322,7 +322,7 @@ TRUSTED_COMMON = [
     "no Axiom/Parameter/Admitted in the development (scanned on every run); Print Assumptions output recorded per theorem; coqchk -o over Props/ (coqchk_summary.txt) succeeds and lists only axioms of LOADED standard-library files (functional_extensionality_dep, ClassicalDedekindReals.sig_not_dec / sig_forall_dec via Lra/Reals), on which no theorem depends",
     "extraction: Require Extraction + ExtrOcamlBasic only (bool, option, list, prod, unit, sumbool -> OCaml's); no Extract Constant / Extract Inductive of our own; nat, N, Z, positive, Q stay extracted inductives; OCaml 4.13.1",
     "driver coq/driver/fpmodel.ml + main.ml (parsing/printing only)",
-    "harness (generators, canonicalisation, diffing) under /verif/harness",
+    "harness (generators, serialisation of the LP read back through highspy.getLp, diffing) under /verif/harness; for the encoders that offer it the LP comparison is decided by the extracted verified checker LinEquiv.milp_equiv_b, the Python diff then only explains a rejection",
     "CPython 3.12 / networkx 3.6.1 / HiGHS 1.15.1 as execution platform of the implementation",
     "HiGHS is assumed to answer correctly (optimal / infeasible mean what they say); its presolve was observed to violate this (feasible models reported infeasible), so the harness runs the library with SolverWrapper.presolve = 'off' (the class default the library documents; VERIF_PRESOLVE overrides)",
 ]
